@@ -20,6 +20,7 @@ RULE = (
     "client's bind did not advertise it; I8 sync and async make the same observable decisions for the same server script (PDU types, tokens, flags, buffer typing, outcome class); I6 nak/fault/unexpected type/EOF/rejection of the desired context => exception, never a plaintext; I7 termination in the step budget, alter_contexts <= provider legs. "
     "state = choice-tree node (prefix of server answers); transition = one client PDU answered."
     " Also, at the RPC client level, contexts offered in 10 id orders x every accept / reject vector x {authenticated, not}: an alter_context re-offers only contexts the server accepted (positionally, as on the wire) and the returned results line up with the caller's list. For two thirds of the providers the server's PDUs arrive in 7- / 100-octet segments."
+    ' A fifth server pattern mirrors the header-sign flag of the PDU it answers; I5b: a flag advertised in bind is not withdrawn in an alter_context while every processed ack carried it.'
 )
 ASSUME = ["scripted provider and scripted peer: only the enumerated behaviours are covered", "the EPM hop runs unscripted-correct (its failure modes are C18's)"]
 BOUND = {"quick": "deviation bound 2, 11 providers, sync + async", "thorough": "deviation bound 3; full tree (depth 4) for the 2-leg and 3-leg providers"}
